@@ -2,6 +2,7 @@ import Utv.GenEq.Support
 import Utv.Gen.Field
 import Utv.Gen.Options
 import Utv.Gen.Parse
+import Utv.Gen.FunctionalObj
 import Utv.Model.C05
 /-!
 C05 — T1 obligations: the field predicates of the hand model (`Model/C05.lean`: `isNoInput isNoOutput alwaysNoInput
@@ -451,5 +452,64 @@ theorem C05_gen_parse_value (W : Obj.World V) (W5 : C05.World V) (o : Opts V) (f
             MonadExceptOf.tryCatch, Except.tryCatch, Exc.isA, List.contains_cons, List.contains_nil, encOnErr, eq, eqS,
             List.nil_append] <;>
           simp only [hfp, hoe, hreq, hdf] <;> rfl
+
+/-! ### `distinct_add` (utils/functional.py): `mkField`'s alias lists -/
+
+def encKey (k : Key) : OVal V := .int (k : Int)
+
+def encKeys (ks : List Key) : OVal V := .seq .list (ks.map encKey)
+
+theorem memS_keys (x : Key) (acc : List Key) :
+    memS (V := V) (encKey x) (acc.map encKey) = .ok (acc.contains x) := by
+  induction acc with
+  | nil => rfl
+  | cons a as ih =>
+    have he : Obj.eq (V := V) (encKey x) (encKey a) = .ok (decide (x = a)) := by
+      simp only [Obj.eq, eqS, encKey, intOf?, pure, Except.pure]
+      congr 1
+      by_cases h : x = a
+      · subst h; simp
+      · have h' : ¬ ((x : Int) = (a : Int)) := fun hh => h (Int.ofNat_inj.mp hh)
+        simp [h, h']
+    simp only [List.map_cons, memS, he, ih, bind, Except.bind, pure, Except.pure, List.contains_cons]
+    by_cases h : x = a
+    · subst h; simp
+    · simp [h]
+
+/-- the loop of `distinct_add`: an item not yet in the target is appended -/
+theorem forIn_distinct (g : Key → OVal V → M V (ForInStep (OVal V)))
+    (hg : ∀ (x : Key) (acc : List Key), g x (encKeys acc) =
+      .ok (.yield (encKeys (if acc.contains x then acc else acc ++ [x])))) :
+    ∀ (xs acc : List Key), forIn xs (encKeys acc) g = .ok (encKeys (distinctAdd acc xs)) := by
+  intro xs
+  induction xs with
+  | nil => intro acc; rfl
+  | cons x xs ih =>
+    intro acc
+    rw [List.forIn_cons, hg]
+    by_cases h : acc.contains x = true
+    · simp only [h, if_true, bind, Except.bind, ih, distinctAdd]
+    · simp only [h, Bool.false_eq_true, if_false, bind, Except.bind, ih, distinctAdd]
+
+/-- `distinct_add(target, items)` hands back `distinctAdd target items` (keys are the model's numbers) -/
+theorem C05_gen_distinct_add (W : Obj.World V) (acc xs : List Key) :
+    FunctionalObj.distinct_add W (encKeys acc) (encKeys xs) = .ok (encKeys (distinctAdd acc xs)) := by
+  gen_obligation "C05_gen_distinct_add: the regenerated code (Utv.Gen) is no longer equal to the hand model here" by
+    have hcont : ∀ (a : List Key) (y : Key), contains (V := V) (encKeys a) (encKey y) = .ok (a.contains y) := by
+      intro a y; simp only [contains, encKeys, memS_keys]
+    have happ : ∀ (a : List Key) (y : Key), append (V := V) (encKeys a) (encKey y) = .ok (encKeys (a ++ [y])) := by
+      intro a y; simp [append, encKeys, pure, Except.pure]
+    by_cases hx : xs = []
+    · subst hx; obj_simp [FunctionalObj.distinct_add, encKeys, distinctAdd]
+    · have hx' : (List.map (encKey (V := V)) xs).isEmpty = false := by simpa using hx
+      unfold FunctionalObj.distinct_add
+      obj_simp [encKeys, isinstance, SeqK.name, FunctionalObj.multi, iter, hx']
+      rw [show (OVal.seq SeqK.list (List.map encKey acc) : OVal V) = encKeys acc from rfl, forIn_distinct]
+      · rfl
+      · intro y a
+        rw [hcont]
+        by_cases h : y ∈ a
+        · simp [h]
+        · simp [h, happ]
 
 end Utv.GenEq.C05
